@@ -13,71 +13,116 @@
 (* create+truncate, write.  File contents are abstracted to                *)
 (*   "absent" | "OLD" (what was there) | "NEW" (exactly the text           *)
 (*   compile_to_string() returns) | "EMPTY" | "OTHER".                     *)
+(*                                                                         *)
+(* Standard output is a *line-buffered* stream (std's LineWriter): a       *)
+(* write_all hands everything through the last line break to the           *)
+(* descriptor at once and keeps the unterminated rest in a buffer that is  *)
+(* written by flush() -- or, failing that, when the process exits, where   *)
+(* an error has nobody left to report to.  The stream may be unwritable    *)
+(* too: a full device (ENOSPC), a pipe whose reader is gone (EPIPE).       *)
+(* Whether output_generated flushes before it returns is the design        *)
+(* choice FlushBeforeReturn; the text's shape (does it end in a line       *)
+(* break, does it contain one) decides what the buffer holds.              *)
 (***************************************************************************)
 EXTENDS Integers, Sequences, FiniteSets
 
 Modes == {"file", "dir", "default", "stdout", "none"}
 FileDests == {"absent", "other_short", "other_long", "readonly", "noparent"}
 DirDests == {"dir_empty", "dir_other", "dir_readonly_file", "dir_readonly"}
-DestsOf(mode) == IF mode = "file" THEN FileDests ELSE IF mode \in {"dir", "default"} THEN DirDests ELSE {"na"}
+StdoutDests == {"na", "stdout_full", "stdout_epipe"}      \* "na": a stream that takes everything
+DestsOf(mode) == IF mode = "file" THEN FileDests ELSE IF mode \in {"dir", "default"} THEN DirDests
+                 ELSE IF mode = "stdout" THEN StdoutDests ELSE {"na"}
+\* the shape of the text with respect to line buffering
+\* (a rest that does not fit into the stream's buffer is not buffered: it goes to the descriptor at once)
+Shapes == {"ends_in_newline", "newline_and_small_rest", "newline_and_large_rest", "small_no_newline", "large_no_newline"}
+HasLines(sh) == sh \in {"ends_in_newline", "newline_and_small_rest", "newline_and_large_rest"}
+SmallRest(sh) == sh \in {"newline_and_small_rest", "small_no_newline"}
+\* does write_all put bytes on the descriptor itself?
+WritesThrough(sh) == HasLines(sh) \/ ~SmallRest(sh)
+CONSTANT FlushBeforeReturn
 Inputs == {"good", "malformed", "missing_source"}
 
 \* the file the text goes to: the given path, or generated.<ext> inside the given directory
 TargetBefore(dest) ==
-    CASE dest \in {"absent", "noparent", "dir_empty", "dir_readonly", "na"} -> "absent"
+    CASE dest \in {"absent", "noparent", "dir_empty", "dir_readonly", "na", "stdout_full", "stdout_epipe"} -> "absent"
       [] OTHER -> "OLD"
 \* can the target be opened for writing (create, truncate)?
 Writable(dest) == dest \in {"absent", "other_short", "other_long", "dir_empty", "dir_other"}
 ToFile(mode) == mode \in {"file", "dir", "default"}
+StreamTakes(dest) == dest = "na"
 
 --------------------------------------------------------------------------------
 (* what the property demands, as a function of the scenario *)
 Result(mode, dest, compiled) ==
     IF compiled # "ok" THEN "err"
     ELSE IF ToFile(mode) /\ ~Writable(dest) THEN "err"
+    ELSE IF mode = "stdout" /\ ~StreamTakes(dest) THEN "err"
     ELSE "ok"
 TargetAfter(mode, dest, compiled) ==
     IF Result(mode, dest, compiled) = "ok" /\ ToFile(mode) THEN "NEW" ELSE TargetBefore(dest)
-Stdout(mode, dest, compiled) == IF mode = "stdout" /\ compiled = "ok" THEN "NEW" ELSE "empty"
+Stdout(mode, dest, compiled) == IF mode = "stdout" /\ compiled = "ok" /\ StreamTakes(dest) THEN "NEW" ELSE "empty"
 
 --------------------------------------------------------------------------------
 (* compile() as the code performs it *)
-VARIABLES mode, dest, input, pc, compiled, target, others, stdout, result
-vars == <<mode, dest, input, pc, compiled, target, others, stdout, result>>
+VARIABLES mode, dest, input, pc, compiled, target, others, stdout, result,
+          shape,      \* the text's shape (fixed by the scenario)
+          buffered    \* does the stream's buffer hold an unwritten rest?
+vars == <<mode, dest, input, pc, compiled, target, others, stdout, result, shape, buffered>>
 
 Init == /\ mode \in Modes /\ dest \in DestsOf(mode) /\ input \in Inputs
         /\ pc = "start" /\ compiled = "?" /\ target = TargetBefore(dest) /\ others = "same"
         /\ stdout = "empty" /\ result = "?"
+        /\ shape \in (IF mode = "stdout" THEN Shapes ELSE {"ends_in_newline"}) /\ buffered = FALSE
 \* internal_compile()?  -- `?' returns before output_generated is reached
 InternalCompile ==
     /\ pc = "start"
     /\ compiled' = IF input = "good" THEN "ok" ELSE "err"
     /\ IF input = "good" THEN pc' = "deliver" /\ UNCHANGED result ELSE pc' = "done" /\ result' = "err"
-    /\ UNCHANGED <<mode, dest, input, target, others, stdout>>
+    /\ UNCHANGED <<mode, dest, input, target, others, stdout, shape, buffered>>
 \* fs::write(path) = open(create, truncate) ...
 Open ==
     /\ pc = "deliver" /\ ToFile(mode)
     /\ IF Writable(dest) THEN pc' = "write" /\ target' = "EMPTY" /\ UNCHANGED result
        ELSE pc' = "done" /\ result' = "err" /\ UNCHANGED target
-    /\ UNCHANGED <<mode, dest, input, compiled, others, stdout>>
+    /\ UNCHANGED <<mode, dest, input, compiled, others, stdout, shape, buffered>>
 \* ... write_all
 Write ==
     /\ pc = "write"
     /\ target' = "NEW" /\ pc' = "done" /\ result' = "ok"
-    /\ UNCHANGED <<mode, dest, input, compiled, others, stdout>>
+    /\ UNCHANGED <<mode, dest, input, compiled, others, stdout, shape, buffered>>
+\* stdout().write_all(text): the part through the last line break goes to the descriptor now (and may fail),
+\* the unterminated rest into the buffer (which cannot fail)
 ToStdout ==
     /\ pc = "deliver" /\ mode = "stdout"
-    /\ stdout' = "NEW" /\ pc' = "done" /\ result' = "ok"
-    /\ UNCHANGED <<mode, dest, input, compiled, target, others>>
+    /\ IF WritesThrough(shape) /\ ~StreamTakes(dest)
+       THEN pc' = "done" /\ result' = "err" /\ UNCHANGED <<stdout, buffered>>
+       ELSE /\ stdout' = IF ~SmallRest(shape) THEN "NEW" ELSE IF HasLines(shape) THEN "PREFIX" ELSE "empty"
+            /\ buffered' = SmallRest(shape)
+            /\ IF FlushBeforeReturn THEN pc' = "flush" /\ UNCHANGED result
+               ELSE pc' = "done" /\ result' = "ok"
+    /\ UNCHANGED <<mode, dest, input, compiled, target, others, shape>>
+\* stdout().flush() before output_generated returns: the rest reaches the descriptor or the call is an Err
+FlushStdout ==
+    /\ pc = "flush"
+    /\ IF buffered /\ ~StreamTakes(dest) THEN result' = "err" /\ UNCHANGED <<stdout, buffered>>
+       ELSE result' = "ok" /\ buffered' = FALSE /\ stdout' = (IF buffered THEN "NEW" ELSE stdout)
+    /\ pc' = "done"
+    /\ UNCHANGED <<mode, dest, input, compiled, target, others, shape>>
+\* the process ends: what is still buffered is written if the stream takes it, and silently lost otherwise
+ProcessExit ==
+    /\ pc = "done" /\ buffered
+    /\ buffered' = FALSE
+    /\ stdout' = IF StreamTakes(dest) THEN "NEW" ELSE stdout
+    /\ UNCHANGED <<mode, dest, input, pc, compiled, target, others, result, shape>>
 Nowhere ==
     /\ pc = "deliver" /\ mode = "none"
     /\ pc' = "done" /\ result' = "ok"
-    /\ UNCHANGED <<mode, dest, input, compiled, target, others, stdout>>
-Next == InternalCompile \/ Open \/ Write \/ ToStdout \/ Nowhere
+    /\ UNCHANGED <<mode, dest, input, compiled, target, others, stdout, shape, buffered>>
+Next == InternalCompile \/ Open \/ Write \/ ToStdout \/ FlushStdout \/ ProcessExit \/ Nowhere
 Spec == Init /\ [][Next]_vars
 
 --------------------------------------------------------------------------------
-Done == pc = "done"
+Done == pc = "done" /\ ~buffered      \* the call has returned and the process has let go of its buffer
 \* the machine delivers what the property demands
 MeetsDemand == Done => /\ result = Result(mode, dest, compiled)
                        /\ target = TargetAfter(mode, dest, compiled)
@@ -88,7 +133,10 @@ NothingOnFailure == (Done /\ compiled = "err") => target = TargetBefore(dest) /\
 \* "delivers exactly the text": never a partial or stale file after success
 ExactOnSuccess == (Done /\ result = "ok" /\ ToFile(mode)) => target = "NEW"
 \* an unwritable destination is an Err and leaves the destination as it was
-UnwritableIsErr == (Done /\ compiled = "ok" /\ ToFile(mode) /\ ~Writable(dest)) => result = "err" /\ target = TargetBefore(dest)
+UnwritableIsErr == /\ (Done /\ compiled = "ok" /\ ToFile(mode) /\ ~Writable(dest)) => result = "err" /\ target = TargetBefore(dest)
+                   /\ (Done /\ compiled = "ok" /\ mode = "stdout" /\ ~StreamTakes(dest)) => result = "err"
+\* Ok means delivered: whoever reads the stream after an Ok has the whole text
+OkMeansDelivered == (Done /\ result = "ok" /\ mode = "stdout") => stdout = "NEW"
 \* the window in which the destination holds neither the old nor the new text exists only between Open and Write
 Torn == target = "EMPTY" => pc = "write"
 =============================================================================
